@@ -60,6 +60,7 @@ import (
 	"github.com/btcsuite/btcwallet/waddrmgr"
 	"github.com/btcsuite/btcwallet/walletdb"
 	_ "github.com/btcsuite/btcwallet/walletdb/bdb"
+	"golang.org/x/crypto/scrypt"
 
 	"verifsim/core"
 	"verifsim/faultdb"
@@ -116,7 +117,7 @@ func (sim) Level(string) string { return "exploration" }
 func (sim) Rule(string) string {
 	return "C17 vault: one case = one plan of put/get operations on a harness-owned ciphertext vault (keys: Manager CKTPublic/CKTPrivate/CKTScript, standalone snacl.CryptoKeys, snacl.SecretKeys), " +
 		"disk faults on STORED blobs (bit flip, truncation, extension, torn write, swap; transient or persistent), lock/unlock(right|near-miss), private/public ChangePassphrase (optionally with an injected db write/commit failure), restart, " +
-		"SecretKey Marshal->vault->(truncate|extend)->Unmarshal->DeriveKey(right|near-miss), Zero+DeriveKey, twin keys. Every decrypt is judged against a registry of all genuine ciphertexts of the run. " +
+		"SecretKey Marshal->vault->(truncate|extend|digest splice)->Unmarshal->DeriveKey(right|near-miss), Zero+DeriveKey, twin keys, a second unrelated wallet. Every decrypt is judged against a registry of all genuine ciphertexts of the run. " +
 		"The stateful half (sessions, re-keying, restart, persistent corruption) is simulation; the 'sweep' operation (every bit position / every truncation length of one blob) is input enumeration that merely runs inside the simulator."
 }
 
@@ -143,10 +144,10 @@ func (sim) Explain(_ string, st map[string]int64) string {
 	}
 	s := fmt.Sprintf("decrypt checks: %d genuine-under-right-key (exact plaintext demanded), %d tampered (error demanded), %d genuine-under-other-key (error demanded); "+
 		"%d reads skipped because the manager was locked. Pure enumeration inside the simulator: %d single-bit flips and %d truncations in %d full sweeps. "+
-		"DeriveKey: %d right-passphrase, %d near-miss; parameter blobs: %d malformed encodings. Manager: %d restarts, %d private and %d public passphrase changes (%d with an injected db fault that fired).",
+		"DeriveKey: %d right-passphrase, %d near-miss (of which %d against a spliced digest, %d HMAC-equivalent); parameter blobs: %d malformed encodings; %d blobs shown to a second wallet. Manager: %d restarts, %d private and %d public passphrase changes (%d with an injected db fault that fired).",
 		st["check.genuine"], st["check.tampered"], st["check.crosskey"], st["skip.locked"],
 		st["sweep.bitflips"], st["sweep.truncations"], st["op.sweep"],
-		st["check.derive-right"], st["check.derive-nearmiss"], st["check.malformed"],
+		st["check.derive-right"], st["check.derive-nearmiss"], st["op.sksplice"], st["op.skhmac"], st["check.malformed"], st["op.foreign"],
 		st["op.restart"], st["chpass.private-ok"], st["chpass.public-ok"], st["fault.dbwrite"]+st["fault.commit"])
 	if len(zero) > 0 {
 		s += " PROBES AT ZERO (coverage hole): " + strings.Join(zero, ", ") + "."
@@ -161,7 +162,9 @@ func (sim) Assumptions() []string {
 		"2^-128-probability events are ignored: a corrupted blob is assumed not to be a valid secretbox under the key by chance, two random nonces are assumed distinct",
 		"package snacl's entropy source is replaced by a plan-seeded stream (probe VerifSetPRNG); waddrmgr's own crypto/rand use (passphrase salts) is left alone and is not observable here",
 		"scrypt parameters are the fast test parameters (N<=32); the check says nothing about key-stretching cost",
-		"bit flips inside SecretKey parameter blobs are not injected (parameters are unauthenticated by design; flips in N/r/p can request terabytes from scrypt); only truncated/extended encodings are",
+		"random bit flips inside SecretKey parameter blobs are not injected (parameters are unauthenticated by design; flips in N/r/p can request terabytes from scrypt); injected are truncated/extended encodings and a directed splice of part of the digest field (a wrong passphrase must still be rejected)",
+		"the general near-miss set excludes byte strings that are the same HMAC-SHA256 key as the passphrase (trailing NULs; SHA-256 of a passphrase longer than 64 bytes): PBKDF2/scrypt cannot distinguish them. They are exercised by a dedicated operation (skhmac, last operation of some plans) and reported under their own signatures derivekey:near-miss-accepted:variant=trailing-nul|sha256-of-long-passphrase",
+		"a CKTScript ciphertext is presented to a second wallet only as the last operation of some plans (signature cross-key-accepted:blob=CKTScript:under=other-wallet-CKTScript) so that this check cannot mask the rest of a plan",
 	}
 }
 
@@ -187,7 +190,7 @@ func (sim) Generate(_ string, tier string, seed uint64) *core.Plan {
 	}
 	base := []wk{{"put", 14}, {"get", 12}, {"flip", 8}, {"trunc", 6}, {"extend", 3}, {"torn", 4}, {"swap", 4}, {"xkey", 3},
 		{"sweep", 2}, {"lock", 2}, {"unlock", 5}, {"chpass", 3}, {"restart", 3}, {"sknew", 2}, {"skderive", 4}, {"skzero", 1},
-		{"skmarshal", 4}, {"sktwin", 1}, {"foreign", 1}}
+		{"skmarshal", 4}, {"sktwin", 1}, {"foreign", 1}, {"sksplice", 2}}
 	if thorough {
 		base[8].w = 5
 	}
@@ -329,6 +332,17 @@ func (sim) Generate(_ string, tier string, seed uint64) *core.Plan {
 				v = int64(r.Range(1, 12))
 			}
 			add(core.Op{K: k, A: []int64{s16(), int64(r.Intn(3)), int64(r.Intn(1 << 10)), v}})
+		case "sksplice":
+			// [sk, near-miss variant, first digest byte, length-1]: half of
+			// them are prefix splices, a quarter suffix splices
+			a, l := int64(r.Intn(32)), int64(r.Intn(31))
+			switch r.Intn(4) {
+			case 0, 1:
+				a = 0
+			case 2:
+				l = 31
+			}
+			add(core.Op{K: k, A: []int64{s16(), int64(r.Range(1, 12)), a, l}})
 		case "foreign":
 			// CKTPublic / CKTPrivate blobs under a second wallet. (CKTScript is
 			// appended as the LAST operation of some plans, see below.)
@@ -1419,6 +1433,63 @@ func (x *exec) step(i int, op core.Op, sweepMax int) string {
 			return "violation"
 		}
 		return fmt.Sprintf("sk=%d %s rejected", j, name)
+
+	case "sksplice":
+		// Adversarial corruption of a stored parameter blob: part of the
+		// digest field is overwritten with the corresponding bytes of the
+		// digest a WRONG passphrase would need (computed by the harness with
+		// x/crypto/scrypt + sha256, not with snacl). The blob is well formed;
+		// the wrong passphrase still does not match the digest in full and
+		// must be rejected. (What the RIGHT passphrase does against a
+		// corrupted digest is not asserted.)
+		j := idx(op.Arg(0), len(x.sks))
+		if j < 0 {
+			return "skip"
+		}
+		s := x.sks[j]
+		v := op.Arg(1)
+		if v < 1 {
+			v = 1
+		}
+		name, wrong := nearMiss(s.pw, v)
+		pr := s.sk.Parameters
+		wk, err := scrypt.Key(wrong, pr.Salt[:], pr.N, pr.R, pr.P, snacl.KeySize)
+		if err != nil {
+			x.infra("scrypt: %v", err)
+		}
+		wd := sha256.Sum256(wk)
+		blob := x.diskGet(skName(j))
+		if len(blob) != 88 {
+			x.infra("stored parameter blob has %d bytes", len(blob))
+		}
+		a := idx(op.Arg(2), 32)
+		b := a + 1 + idx(op.Arg(3), 31)
+		if b > 32 {
+			b = 32
+		}
+		if a == 0 && b == 32 {
+			b = 31
+		}
+		copy(blob[32+a:32+b], wd[a:b])
+		if bytes.Equal(blob[32:64], wd[:]) {
+			return "skip:digest-collision"
+		}
+		env.Count("op.sksplice")
+		env.Count("fault.params-digest-splice")
+		env.Count("check.derive-nearmiss")
+		env.Count("probe.near-miss-passphrase")
+		env.Eff()
+		var f snacl.SecretKey
+		if err := f.Unmarshal(blob); err != nil {
+			env.Fail(prop, "unmarshal:wellformed-rejected:after=digest-splice", "Unmarshal of an 88-byte parameter blob failed: %v", err)
+			return "violation"
+		}
+		if err := f.DeriveKey(&wrong); err == nil {
+			env.Fail(prop, "derivekey:near-miss-accepted:variant="+name+":after=digest-splice",
+				"DeriveKey accepted a wrong passphrase (%s variant) against stored parameters whose digest bytes [%d,%d) had been overwritten with those of the wrong passphrase's digest; the remaining %d digest bytes do not match", name, a, b, 32-(b-a))
+			return "violation"
+		}
+		return fmt.Sprintf("sk=%d %s digest[%d:%d]", j, name, a, b)
 
 	case "skzero":
 		j := idx(op.Arg(0), len(x.sks))
